@@ -4,6 +4,10 @@ import KyupyVerif.Proofs.VerilogLib5
 import KyupyVerif.Proofs.VerilogLib6
 import KyupyVerif.Proofs.VerilogLibFit
 import KyupyVerif.Proofs.FormatEquiv
+import KyupyVerif.Proofs.FormatEquiv2
+import KyupyVerif.Proofs.FormatEquiv3
+import KyupyVerif.Proofs.FormatEquiv4
+import KyupyVerif.Proofs.FormatEquiv5
 /-! # C11 (capstone) — structural Verilog over a CELL LIBRARY: text → parse → `resolve_tlib_cells` → `SimOps` → `LogicSim`
 computes the DATASHEET denotation of the module
 
@@ -51,8 +55,12 @@ state element by its kind name), input port bits, assign pairs and undriven name
     (Proofs/VerilogLibFit.lean `vModelLib_iff_byName`); (d) restated with `VModelLibN`.  The crossed pin table of the audit witness
     (`exTLx`: every other hypothesis true, index reading `b1 ∨ (a ∧ b2)`) has `tlFitsB = false` (kernel-checked example).
   - `vArityLib_of_vArity` — `vArityB` (C11) implies the arity domain `vArityLibB` of the capstone.
-  - `bench_verilog_equiv_partial` — "either format", gate clause ONLY (see the comment above it for the unproved netlist-level
-    statement): the primitive-library instance rendering a bench gate statement drives its name and computes the same value.
+  - `bench_verilog_equiv_partial` — "either format", the gate clause: the primitive-library instance rendering a bench gate statement
+    drives its name and computes the same value.  `bench_verilog_equiv`, `bench_verilog_interface_positions`, `bench_verilog_captures`,
+    `bench_verilog_sim_equiv` (section `FormatEquiv` at the END of this file, with its own header) — the NETLIST-level statement: the
+    bench and the Verilog rendering of one netlist description of the common fragment `commonNlB` have the same models, the same
+    interface positions, the same observations, and (both renderings building, both circuits scheduled) the same 2-valued `LogicSim`
+    results at the interface.
   - non-vacuity (section `Example`): NANGATE `AOI21_X1` feeding `INV_X1` (real implementation dumps, rows of the generated tables),
     and the same with a flip-flop `DFF` as PRIMITIVE state element in a feedback loop: every hypothesis by `decide +kernel`, the
     theorem applied (from the text; line value resp. captured values = those of the datasheet model the evaluator computes).
@@ -340,9 +348,12 @@ theorem vArityLib_of_vArity (isLib : String → Bool) (tl : TL) (stmts : List St
   · exact Or.inl (Or.inr h1)
   · exact Or.inr (by simpa using h1)
 
-/-! ### "the same netlist written in either format" — PARTIAL (audit-2 B-C11-4)
+/-! ### "the same netlist written in either format" — the gate clause (audit-2 B-C11-4)
 
-FULL STATEMENT (NOT proved; stays with the oracle `format-equivalence` of harness/c11.py `run_netlist`):
+[The netlist-level statement sketched here IS NOW PROVED, for the description type `Nl` with ports in ANY direction order: theorem
+`bench_verilog_equiv` in section `FormatEquiv` at the end of this file (Proofs/FormatEquiv2.lean); the text below is kept as the
+record of what `bench_verilog_equiv_partial` covers on its own.]
+FULL STATEMENT (as planned when only the gate clause was proved):
   for a netlist description `nl` (input names `pis`, output names `pos`, gates `name = K(drv…)` with an instance name each) in the
   common fragment `nlOKB nl` (decidable: names pairwise different, no name a constant literal or an instance name, every operand
   and every output an input or a gate name, at most four operands, kinds of the primitive library) and its two renderings
@@ -662,5 +673,363 @@ example : ((verilogNet {} exTLf exFM.ports exFS).sNodes.map fun n => (exFH.net.n
   decide +kernel
 
 end Example
+
+/-! ## "the same netlist written in either format yields equivalent circuits" — NETLIST level (Proofs/FormatEquiv2.lean)
+
+One netlist description `nl : Nl` (ports `(is output, name)` in port-list order; gates `name = kind(drv…)` with a Verilog instance name
+each, in statement order), its two renderings
+  `benchOf nl : List BStmt`   — `INPUT(n)` / `OUTPUT(n)` per port in port-list order, then `name = kind(drv…)` per gate,
+  `verilogOf nl : List Stmt`  — one single-bit `input n;` / `output n;` per port, then `kind inst(.o(name), .i0(d0), …)` per gate over the
+                                pin table `primTL` of the primitive library (port list `nl.portNames`),
+and the decidable common fragment `commonNlB nl`: port names pairwise different; gate names pairwise different; instance names pairwise
+different and no port name; no input port is a gate name; every output port is a gate name; every gate has at most four operands and
+no operand is a constant literal.  Combinational AND sequential kinds (`DFF`, latches: state elements by kind name) are inside.
+
+* **Theorem**: `bench_verilog_equiv` (the statement the comment above `bench_verilog_equiv_partial` called missing) — the two
+  statement-level denotations are THE SAME predicate on environments: `BenchModel (benchOf nl) z prim a σ ↔ VModel primTL nl.portNames
+  (verilogOf nl) z neg prim a σ`, any value domain, any assignment, every environment — which covers the `sigDecls` / `inputNames` /
+  `posNames` bookkeeping, the clause for names without driver, and state elements;
+  `bench_verilog_interface_positions` — a port has the same `s_nodes` position in both (its index in the port list: `benchSPos` of its
+  fork = `vSPos` of its cell), a gate (state element) too (ports, then flip-flops, then latches in statement order: `benchSPos` of the
+  cell named by the SIGNAL = `vSPos` of the cell named by the INSTANCE);
+  `bench_verilog_captures` — what is observed per interface position is the same list (`benchCaptures` = `vCaptures`);
+  `bench_verilog_sim_equiv` — composition with `bench_end_to_end_as_simulated` / `verilog_end_to_end` (C11 ∘ C01/C02): when both
+  renderings build (`benchOKB`, `verilogOKB`: decidable, about the two statement lists) and each parsed circuit has a schedule, for two
+  stimuli that agree on the constant slot and on the `nl.nPos` interface positions there is ONE environment `σ` that is the unique
+  model of both renderings, the 2-valued `LogicSim` result on every line of EITHER circuit is `σ` of the line's signal, and the two
+  lists of captured values (output ports, data pins of state elements, in `s_nodes` order) are EQUAL — the truth tables the oracle
+  `format-equivalence` compares.
+  `bench_verilog_sim_equiv8` — the same equality of captured lists for the 8-valued simulation (`semL8`, `prim8`);
+  `renderings_build` — for a CLOSED description (`closedNlB`: `commonNlB`, no kind is `__fork__`, every operand is a gate name or an
+  input port, no gate name / input port looks like a constant bit `1'b…`) both renderings BUILD: `benchOKB (benchOf nl)`, and without
+  branch forks (`cfg.bf = false`, the default of `verilog.parse`) `verilogOKB cfg primTL nl.portNames (verilogOf nl)`
+  (Proofs/FormatEquiv3.lean: closed form of the reader end points of `vFlat`, pairwise different); `bench_verilog_sim_equiv_closed` —
+  the simulation statement with hypotheses on the description and the two schedules only;
+  `bench_verilog_equiv_layouts` — statement order and grouping do not matter: any bench statement list with the same `benchGates` /
+  `benchPorts` and any module body with the same `sigDecls` / `vInsts` / assign pairs have the same models and observations.
+  `renderings_build_branchforks` — with `closedBfNlB` (= `closedNlB` and the branch-fork names `stem~inst/pin`, one per input
+  connection, are pairwise different and no gate name / input port; Proofs/FormatEquiv4.lean) `verilogOKB` holds for EVERY parser
+  configuration, `branchforks=True` included; a name containing `~` can be outside (kernel-checked example).
+  `bench_verilog_texts_to_nets`, `bench_verilog_text_sim_equiv` — FROM TEXT: `printBench (benchOf nl)` and `printVerilog [nlModule name nl]`
+  (Proofs/FormatEquiv5.lean: the text-level module whose statements become `verilogOf nl`) are the two texts of the description; the
+  circuits built from the model's reading of them have the two nets above, hence — closed description, any parser configuration,
+  schedules — the same captured `LogicSim` results (any layout / spelling of the texts by the C11 layout and token-class theorems).
+* **Hypotheses that remain**: `commonNlB` resp. `closedNlB` / `closedBfNlB` (all about the description only); at text level writable names
+  (`validStmt`, `validModule`) and no apostrophe in a signal name (`noAposB`); the scheduling
+  hypotheses of the two end-to-end theorems (`orderOKB`, `forksOKB`, `linesDrivenB` for each parsed circuit and its order).
+* **Correspondence / oracle**: the renderings `benchOf` / `verilogOf` are CANONICAL (one statement per port, ports first; pin names
+  `o`, `i0`…`i3`); the harness renders the same netlist with shuffled statements, grouped interface statements, renamed signals, kind
+  synonyms, real library pin names, assigns, constants and buses — that those texts parse to circuits with the same tables stays with
+  the oracle `format-equivalence` (harness/c11.py `run_netlist`); `BenchModel` depends on a description only through `benchGates` and
+  `benchPorts`, so statement interleaving is irrelevant on the bench side by definition. -/
+section FormatEquiv
+
+/-- **`bench_verilog_equiv`**: the bench rendering and the Verilog rendering of one netlist description of the common fragment have
+the same models — for every value domain / op algebra, assignment `a` of the interface positions and environment `σ` -/
+theorem bench_verilog_equiv {α : Type} (nl : Nl) (hc : commonNlB nl = true) (z : α) (neg : α → α) (prim : String → α → α → α → α → α)
+    (a : Nat → α) (σ : String → α) :
+    BenchModel (benchOf nl) z prim a σ ↔ VModel primTL nl.portNames (verilogOf nl) z neg prim a σ :=
+  bench_verilog_models_equiv nl (commonNl_of nl hc) z neg prim a σ
+
+/-- **interface positions are the same**: a port `n` sits at its port-list index in both `s_nodes` orders; the state element of gate
+`g` sits after the ports at its index among flip-flops-then-latches, in the bench circuit under the SIGNAL name, in the Verilog
+circuit under the INSTANCE name -/
+theorem bench_verilog_interface_positions (nl : Nl) (hc : commonNlB nl = true) :
+    (∀ n ∈ nl.portNames, benchSPos (benchOf nl) (.fork n) = nl.portNames.idxOf n ∧
+      vSPos nl.portNames (verilogOf nl) (.cell n 0) = nl.portNames.idxOf n) ∧
+    (∀ g ∈ nl.gates, benchSPos (benchOf nl) (.cell g.name 0) = nl.ports.length + nl.seqGates.idxOf g ∧
+      vSPos nl.portNames (verilogOf nl) (.cell g.inst 0) = nl.ports.length + nl.seqGates.idxOf g) :=
+  ⟨fun n hn => nl_spos_port nl (commonNl_of nl hc).ports n hn, fun g hg => nl_spos_gate nl (commonNl_of nl hc) g hg⟩
+
+/-- **what is observed is the same**: the list of observed values per interface position (an output port shows its signal, a state
+element its first operand, nothing at input ports) of the two renderings -/
+theorem bench_verilog_captures {α : Type} (nl : Nl) (hc : commonNlB nl = true) (z : α) (prim : String → α → α → α → α → α)
+    (σ : String → α) :
+    benchCaptures (benchOf nl) σ = vCaptures primTL nl.portNames (verilogOf nl) z prim σ :=
+  bench_verilog_captures_equiv nl (commonNl_of nl hc) z prim σ
+
+/-- the bench rendering builds when no kind is the literal `__fork__`; the Verilog rendering is inside the arity domain `vArityB` -/
+theorem bench_rendering_builds (nl : Nl) (hc : commonNlB nl = true) (hk : (nl.gates.all fun g => g.kind != forkKind) = true) :
+    benchOKB (benchOf nl) = true ∧ vArityB primTL (verilogOf nl) = true :=
+  ⟨benchOK_benchOf nl (commonNl_of nl hc) (fun g hg => by simpa using (List.all_eq_true.mp hk) g hg), vArity_verilogOf nl⟩
+
+/-- **`bench_verilog_sim_equiv`** (2-valued; composition with C11 `bench_end_to_end_as_simulated` / `verilog_end_to_end`, i.e. with
+C01/C02): the circuits parsed from the two renderings compute the same function.  For stimuli `envB` / `envV` of the two simulators
+that agree on the constant slot and on the interface positions: ONE environment `σ` is the unique model of both renderings, every
+line of either circuit carries `σ` of its signal, and the captured lists are equal. -/
+theorem bench_verilog_sim_equiv (cfg : Cfg) (nl : Nl) (hc : commonNlB nl = true)
+    (hbok : benchOKB (benchOf nl) = true) (hvok : verilogOKB cfg primTL nl.portNames (verilogOf nl) = true)
+    (orderB orderV : List Nat)
+    (hoB : orderOKB (benchNet (benchOf nl)) orderB = true) (hfB : forksOKB (benchNet (benchOf nl)) orderB = true)
+    (hlB : linesDrivenB Gen.kindPrefixes (benchNet (benchOf nl)) orderB = true)
+    (hoV : orderOKB (verilogNet cfg primTL nl.portNames (verilogOf nl)) orderV = true)
+    (hfV : forksOKB (verilogNet cfg primTL nl.portNames (verilogOf nl)) orderV = true)
+    (hlV : linesDrivenB Gen.kindPrefixes (verilogNet cfg primTL nl.portNames (verilogOf nl)) orderV = true)
+    (envB envV : Nat → Bool)
+    (hz : envB (benchNet (benchOf nl)).idx.zero = envV (verilogNet cfg primTL nl.portNames (verilogOf nl)).idx.zero)
+    (hst : ∀ p, p < nl.nPos →
+      envB ((benchNet (benchOf nl)).idx.ppi + p) = envV ((verilogNet cfg primTL nl.portNames (verilogOf nl)).idx.ppi + p)) :
+    ∃ σ, BenchModel (benchOf nl) (envB (benchNet (benchOf nl)).idx.zero) prim2 (fun p => envB ((benchNet (benchOf nl)).idx.ppi + p)) σ ∧
+      VModel primTL nl.portNames (verilogOf nl) (envV (verilogNet cfg primTL nl.portNames (verilogOf nl)).idx.zero) (!·) prim2
+        (fun p => envV ((verilogNet cfg primTL nl.portNames (verilogOf nl)).idx.ppi + p)) σ ∧
+      (∀ σ', BenchModel (benchOf nl) (envB (benchNet (benchOf nl)).idx.zero) prim2
+        (fun p => envB ((benchNet (benchOf nl)).idx.ppi + p)) σ' → σ' = σ) ∧
+      (∀ i, i < (benchNet (benchOf nl)).lines.size →
+        exec semL2n ((genOps Gen.kindPrefixes (benchNet (benchOf nl)) orderB false).map OpRow.toOp) envB i =
+          benchLabel (benchOf nl) σ i) ∧
+      (∀ i, i < (verilogNet cfg primTL nl.portNames (verilogOf nl)).lines.size →
+        exec semL2n ((genOps Gen.kindPrefixes (verilogNet cfg primTL nl.portNames (verilogOf nl)) orderV false).map OpRow.toOp) envV i =
+          vLabel cfg primTL (verilogOf nl) (envV (verilogNet cfg primTL nl.portNames (verilogOf nl)).idx.zero) prim2 σ i) ∧
+      ((benchNet (benchOf nl)).sNodes.map fun n => ((benchNet (benchOf nl)).node n).inPin 0 |>.map
+        (exec semL2n ((genOps Gen.kindPrefixes (benchNet (benchOf nl)) orderB false).map OpRow.toOp) envB)) =
+      ((verilogNet cfg primTL nl.portNames (verilogOf nl)).sNodes.map fun n =>
+        ((verilogNet cfg primTL nl.portNames (verilogOf nl)).node n).inPin 0 |>.map
+          (exec semL2n ((genOps Gen.kindPrefixes (verilogNet cfg primTL nl.portNames (verilogOf nl)) orderV false).map OpRow.toOp) envV)) := by
+  have hcn := commonNl_of nl hc
+  obtain ⟨σB, hmB, huB, hlineB, hcapB⟩ := bench_end_to_end_as_simulated (benchOf nl) hbok orderB hoB hfB hlB envB
+  obtain ⟨σV, hmV, _, hlineV, hcapV⟩ := verilog_end_to_end cfg primTL nl.portNames (verilogOf nl) hvok (vArity_verilogOf nl) orderV
+    hoV hfV hlV envV
+  have hmV' : BenchModel (benchOf nl) (envB (benchNet (benchOf nl)).idx.zero) prim2
+      (fun p => envB ((benchNet (benchOf nl)).idx.ppi + p)) σV := by
+    rw [hz]
+    exact benchModel_benchOf_congr nl hcn _ prim2 _ _ (fun p hp => (hst p hp).symm) σV
+      ((bench_verilog_models_equiv nl hcn _ (!·) prim2 _ σV).mpr hmV)
+  have he : σV = σB := huB σV hmV'
+  subst he
+  refine ⟨σV, hmB, hmV, huB, hlineB, hlineV, ?_⟩
+  rw [hcapB, hcapV]
+  exact bench_verilog_captures_equiv nl hcn _ prim2 σV
+
+/-- non-vacuity: ports `a` (in), `y` (out), `b` (in); `n = NAND(a, b)`, `q = DFF(n)`, `y = XOR(q, a, b)` — a flip-flop between two
+combinational gates, a three-operand gate, the output in the middle of the port list -/
+def exNl : Nl := ⟨[(false, "a"), (true, "y"), (false, "b")],
+  [⟨"n", "NAND", "g1", ["a", "b"]⟩, ⟨"q", "DFF", "f", ["n"]⟩, ⟨"y", "XOR", "g2", ["q", "a", "b"]⟩]⟩
+def exNlOrdB : List Nat := [0, 2, 5, 6, 3, 4, 7, 1]
+def exNlOrdV : List Nat := [6, 7, 9, 10, 2, 3, 0, 1, 4, 5, 8]
+
+/-- the two renderings -/
+example : benchOf exNl = [.intf ["a"], .intf ["y"], .intf ["b"], .gate "n" "NAND" ["a", "b"], .gate "q" "DFF" ["n"],
+      .gate "y" "XOR" ["q", "a", "b"]] ∧
+    verilogOf exNl = [.decls [⟨.input, "a", none⟩], .decls [⟨.output, "y", none⟩], .decls [⟨.input, "b", none⟩],
+      .inst "NAND" "g1" [("o", .one "n"), ("i0", .one "a"), ("i1", .one "b")],
+      .inst "DFF" "f" [("o", .one "q"), ("i0", .one "n")],
+      .inst "XOR" "g2" [("o", .one "y"), ("i0", .one "q"), ("i1", .one "a"), ("i2", .one "b")]] ∧ exNl.nPos = 4 := by
+  refine ⟨rfl, rfl, ?_⟩
+  decide +kernel
+
+/-- every hypothesis of `bench_verilog_equiv` and `bench_verilog_sim_equiv` holds for it (kernel evaluation): the fragment, both
+renderings build, both parsed circuits (8 resp. 11 nodes) are scheduled by the given orders -/
+theorem exNl_hyps : commonNlB exNl = true ∧ benchOKB (benchOf exNl) = true ∧
+    verilogOKB {} primTL exNl.portNames (verilogOf exNl) = true ∧
+    orderOKB (benchNet (benchOf exNl)) exNlOrdB = true ∧ forksOKB (benchNet (benchOf exNl)) exNlOrdB = true ∧
+    linesDrivenB Gen.kindPrefixes (benchNet (benchOf exNl)) exNlOrdB = true ∧
+    orderOKB (verilogNet {} primTL exNl.portNames (verilogOf exNl)) exNlOrdV = true ∧
+    forksOKB (verilogNet {} primTL exNl.portNames (verilogOf exNl)) exNlOrdV = true ∧
+    linesDrivenB Gen.kindPrefixes (verilogNet {} primTL exNl.portNames (verilogOf exNl)) exNlOrdV = true ∧
+    (benchNet (benchOf exNl)).sNodes = [0, 1, 2, 5] ∧ (verilogNet {} primTL exNl.portNames (verilogOf exNl)).sNodes = [6, 8, 9, 2] ∧
+    ((benchNet (benchOf exNl)).idx.zero, (benchNet (benchOf exNl)).idx.ppi) = (9, 12) ∧
+    ((verilogNet {} primTL exNl.portNames (verilogOf exNl)).idx.zero,
+      (verilogNet {} primTL exNl.portNames (verilogOf exNl)).idx.ppi) = (12, 15) := by decide +kernel
+
+/-- **the theorem applied**: stimulus `a = 1`, `b = 0`, state of the flip-flop `1` given to both simulators (bench positions at
+slots `12 + p`, Verilog positions at `15 + p`): the two captured lists (ports `a`, `y`, `b`, then the data pin of the flip-flop) are equal -/
+example : ((benchNet (benchOf exNl)).sNodes.map fun n => ((benchNet (benchOf exNl)).node n).inPin 0 |>.map
+      (exec semL2n ((genOps Gen.kindPrefixes (benchNet (benchOf exNl)) exNlOrdB false).map OpRow.toOp)
+        (fun x => x == 12 || x == 15))) =
+    ((verilogNet {} primTL exNl.portNames (verilogOf exNl)).sNodes.map fun n =>
+      ((verilogNet {} primTL exNl.portNames (verilogOf exNl)).node n).inPin 0 |>.map
+        (exec semL2n ((genOps Gen.kindPrefixes (verilogNet {} primTL exNl.portNames (verilogOf exNl)) exNlOrdV false).map OpRow.toOp)
+          (fun x => x == 15 || x == 18))) := by
+  obtain ⟨h1, h2, h3, h4, h5, h6, h7, h8, h9, _, _, hiB, hiV⟩ := exNl_hyps
+  have hzB : (benchNet (benchOf exNl)).idx.zero = 9 := congrArg Prod.fst hiB
+  have hpB : (benchNet (benchOf exNl)).idx.ppi = 12 := congrArg Prod.snd hiB
+  have hzV : (verilogNet {} primTL exNl.portNames (verilogOf exNl)).idx.zero = 12 := congrArg Prod.fst hiV
+  have hpV : (verilogNet {} primTL exNl.portNames (verilogOf exNl)).idx.ppi = 15 := congrArg Prod.snd hiV
+  obtain ⟨_, _, _, _, _, _, hcap⟩ := bench_verilog_sim_equiv {} exNl h1 h2 h3 exNlOrdB exNlOrdV h4 h5 h6 h7 h8 h9
+    (fun x => x == 12 || x == 15) (fun x => x == 15 || x == 18) (by rw [hzB, hzV]; rfl)
+    (by
+      intro p hp
+      rw [hpB, hpV]
+      have : exNl.nPos = 4 := by decide +kernel
+      rw [this] at hp
+      rcases (by omega : p = 0 ∨ p = 1 ∨ p = 2 ∨ p = 3) with rfl | rfl | rfl | rfl <;> rfl)
+  exact hcap
+
+/-- **both renderings of a CLOSED description build** (`closedNlB`: `commonNlB`, no kind is the literal `__fork__`, every operand is a
+gate name or an input port, no gate name / input port looks like a constant bit `1'b…` — decidable, about the description only):
+`benchOKB` of the bench rendering, and — without branch forks, the default of `verilog.parse` — the fragment `verilogOKB` of the
+Verilog rendering; both arity domains -/
+theorem renderings_build (cfg : Cfg) (hbf : cfg.bf = false) (nl : Nl) (h : closedNlB nl = true) :
+    commonNlB nl = true ∧ benchOKB (benchOf nl) = true ∧ benchArityB (benchOf nl) = true ∧
+    verilogOKB cfg primTL nl.portNames (verilogOf nl) = true ∧ vArityB primTL (verilogOf nl) = true :=
+  ⟨(closedNl_of nl h).1, benchOK_benchOf nl (commonNl_of nl (closedNl_of nl h).1) (closedNl_of nl h).2.kinds,
+    benchArity_benchOf nl (commonNl_of nl (closedNl_of nl h).1),
+    verilogOK_verilogOf cfg hbf nl (commonNl_of nl (closedNl_of nl h).1) (closedNl_of nl h).2, vArity_verilogOf nl⟩
+
+/-- **`bench_verilog_sim_equiv_closed`**: `bench_verilog_sim_equiv` with hypotheses on the DESCRIPTION and the two schedules only -/
+theorem bench_verilog_sim_equiv_closed (cfg : Cfg) (hbf : cfg.bf = false) (nl : Nl) (hcl : closedNlB nl = true)
+    (orderB orderV : List Nat)
+    (hoB : orderOKB (benchNet (benchOf nl)) orderB = true) (hfB : forksOKB (benchNet (benchOf nl)) orderB = true)
+    (hlB : linesDrivenB Gen.kindPrefixes (benchNet (benchOf nl)) orderB = true)
+    (hoV : orderOKB (verilogNet cfg primTL nl.portNames (verilogOf nl)) orderV = true)
+    (hfV : forksOKB (verilogNet cfg primTL nl.portNames (verilogOf nl)) orderV = true)
+    (hlV : linesDrivenB Gen.kindPrefixes (verilogNet cfg primTL nl.portNames (verilogOf nl)) orderV = true)
+    (envB envV : Nat → Bool)
+    (hz : envB (benchNet (benchOf nl)).idx.zero = envV (verilogNet cfg primTL nl.portNames (verilogOf nl)).idx.zero)
+    (hst : ∀ p, p < nl.nPos →
+      envB ((benchNet (benchOf nl)).idx.ppi + p) = envV ((verilogNet cfg primTL nl.portNames (verilogOf nl)).idx.ppi + p)) :
+    ((benchNet (benchOf nl)).sNodes.map fun n => ((benchNet (benchOf nl)).node n).inPin 0 |>.map
+        (exec semL2n ((genOps Gen.kindPrefixes (benchNet (benchOf nl)) orderB false).map OpRow.toOp) envB)) =
+      ((verilogNet cfg primTL nl.portNames (verilogOf nl)).sNodes.map fun n =>
+        ((verilogNet cfg primTL nl.portNames (verilogOf nl)).node n).inPin 0 |>.map
+          (exec semL2n ((genOps Gen.kindPrefixes (verilogNet cfg primTL nl.portNames (verilogOf nl)) orderV false).map OpRow.toOp) envV)) := by
+  obtain ⟨h1, h2, _, h3, _⟩ := renderings_build cfg hbf nl hcl
+  obtain ⟨_, _, _, _, _, _, hcap⟩ := bench_verilog_sim_equiv cfg nl h1 h2 h3 orderB orderV hoB hfB hlB hoV hfV hlV envB envV hz hst
+  exact hcap
+
+/-- the example description is closed -/
+example : closedNlB exNl = true := by decide +kernel
+
+/-- **any statement layout with the same tables**: a bench description `bs` with the gate statements and interface names of
+`benchOf nl` in the same order (interface statements grouped / interleaved with the gates anywhere — what `benchGates`, `benchPorts`
+see) and a module body `vs` with the declarations table, the instances in order and no assign pairs of `verilogOf nl` (declarations
+split over several statements, statements interleaved, `other` items) have the same models and the same observations -/
+theorem bench_verilog_equiv_layouts {α : Type} (nl : Nl) (hc : commonNlB nl = true) (bs : List BStmt) (vs : List Stmt)
+    (hbg : benchGates bs = benchGates (benchOf nl)) (hbp : benchPorts bs = benchPorts (benchOf nl))
+    (hvd : sigDecls vs = sigDecls (verilogOf nl)) (hvi : vInsts vs = vInsts (verilogOf nl))
+    (hva : ∀ ds, assignPairs ds vs = assignPairs ds (verilogOf nl))
+    (z : α) (neg : α → α) (prim : String → α → α → α → α → α) (a : Nat → α) (σ : String → α) :
+    (BenchModel bs z prim a σ ↔ VModel primTL nl.portNames vs z neg prim a σ) ∧
+    benchCaptures bs σ = vCaptures primTL nl.portNames vs z prim σ := by
+  obtain ⟨h1, _, h3⟩ := benchModel_congr_stmts (benchOf nl) bs hbg hbp z prim a σ
+  obtain ⟨h4, _, h6⟩ := vModel_congr_stmts primTL nl.portNames (verilogOf nl) vs hvd hvi hva z neg prim a σ
+  exact ⟨h1.trans ((bench_verilog_equiv nl hc z neg prim a σ).trans h4.symm),
+    h3.trans ((bench_verilog_captures nl hc z prim σ).trans h6.symm)⟩
+
+/-- the hypotheses hold for a shuffled bench text with grouped interface statements (`n = NAND(a, b)`, `INPUT(a)`, `q = DFF(n)`,
+`OUTPUT(y)`, `INPUT(b)` … in any interleaving that keeps the two orders) and a module body with split declarations -/
+example : benchGates [.gate "n" "NAND" ["a", "b"], .intf ["a", "y"], .gate "q" "DFF" ["n"], .gate "y" "XOR" ["q", "a", "b"], .intf ["b"]] =
+      benchGates (benchOf exNl) ∧
+    benchPorts [.gate "n" "NAND" ["a", "b"], .intf ["a", "y"], .gate "q" "DFF" ["n"], .gate "y" "XOR" ["q", "a", "b"], .intf ["b"]] =
+      benchPorts (benchOf exNl) ∧
+    sigDecls [.decls [⟨.input, "a", none⟩], .inst "NAND" "g1" [("o", .one "n"), ("i0", .one "a"), ("i1", .one "b")], .other,
+        .decls [⟨.output, "y", none⟩, ⟨.input, "b", none⟩], .inst "DFF" "f" [("o", .one "q"), ("i0", .one "n")],
+        .inst "XOR" "g2" [("o", .one "y"), ("i0", .one "q"), ("i1", .one "a"), ("i2", .one "b")]] = sigDecls (verilogOf exNl) := by
+  decide +kernel
+
+/-- **`bench_verilog_sim_equiv8`**: the same for the 8-valued simulation (`semL8` = the real dispatch of `c_prop`, documented algebra
+`prim8`): the two captured lists are equal for stimuli that agree on the constant slot and the interface positions -/
+theorem bench_verilog_sim_equiv8 (cfg : Cfg) (nl : Nl) (hc : commonNlB nl = true)
+    (hbok : benchOKB (benchOf nl) = true) (hvok : verilogOKB cfg primTL nl.portNames (verilogOf nl) = true)
+    (orderB orderV : List Nat)
+    (hoB : orderOKB (benchNet (benchOf nl)) orderB = true) (hfB : forksOKB (benchNet (benchOf nl)) orderB = true)
+    (hlB : linesDrivenB Gen.kindPrefixes (benchNet (benchOf nl)) orderB = true)
+    (hoV : orderOKB (verilogNet cfg primTL nl.portNames (verilogOf nl)) orderV = true)
+    (hfV : forksOKB (verilogNet cfg primTL nl.portNames (verilogOf nl)) orderV = true)
+    (hlV : linesDrivenB Gen.kindPrefixes (verilogNet cfg primTL nl.portNames (verilogOf nl)) orderV = true)
+    (envB envV : Nat → V3)
+    (hz : envB (benchNet (benchOf nl)).idx.zero = envV (verilogNet cfg primTL nl.portNames (verilogOf nl)).idx.zero)
+    (hst : ∀ p, p < nl.nPos →
+      envB ((benchNet (benchOf nl)).idx.ppi + p) = envV ((verilogNet cfg primTL nl.portNames (verilogOf nl)).idx.ppi + p)) :
+    ((benchNet (benchOf nl)).sNodes.map fun n => ((benchNet (benchOf nl)).node n).inPin 0 |>.map
+        (exec semL8 ((genOps Gen.kindPrefixes (benchNet (benchOf nl)) orderB false).map OpRow.toOp) envB)) =
+      ((verilogNet cfg primTL nl.portNames (verilogOf nl)).sNodes.map fun n =>
+        ((verilogNet cfg primTL nl.portNames (verilogOf nl)).node n).inPin 0 |>.map
+          (exec semL8 ((genOps Gen.kindPrefixes (verilogNet cfg primTL nl.portNames (verilogOf nl)) orderV false).map OpRow.toOp) envV)) := by
+  have hcn := commonNl_of nl hc
+  obtain ⟨σB, _, huB, _, hcapB⟩ := bench_end_to_end8 (benchOf nl) hbok (benchArity_benchOf nl hcn) orderB hoB hfB hlB envB
+  obtain ⟨σV, hmV, _, _, hcapV⟩ := verilog_end_to_end8 cfg primTL nl.portNames (verilogOf nl) hvok (vArity_verilogOf nl) orderV
+    hoV hfV hlV envV
+  have hmV' : BenchModel (benchOf nl) (envB (benchNet (benchOf nl)).idx.zero) prim8
+      (fun p => envB ((benchNet (benchOf nl)).idx.ppi + p)) σV := by
+    rw [hz]
+    exact benchModel_benchOf_congr nl hcn _ prim8 _ _ (fun p hp => (hst p hp).symm) σV
+      ((bench_verilog_models_equiv nl hcn _ specNot prim8 _ σV).mpr hmV)
+  have he : σV = σB := huB σV hmV'
+  subst he
+  rw [hcapB, hcapV]
+  exact bench_verilog_captures_equiv nl hcn _ prim8 σV
+
+/-- **… with branch forks too**: `closedBfNlB` = `closedNlB` and the branch-fork names `stem~inst/pin` the reader pass makes
+(`nl.branchNames`: one per input connection) are pairwise different and no gate name / input port — then the Verilog rendering is
+inside the fragment for EVERY parser configuration, `branchforks=True` included -/
+theorem renderings_build_branchforks (cfg : Cfg) (nl : Nl) (h : closedBfNlB nl = true) :
+    verilogOKB cfg primTL nl.portNames (verilogOf nl) = true :=
+  verilogOK_verilogOf_any cfg nl h
+
+/-- the example description has fresh branch-fork names: `a~g1/i0`, `b~g1/i1`, `n~f/i0`, `q~g2/i0`, `a~g2/i1`, `b~g2/i2` -/
+example : closedBfNlB exNl = true ∧ exNl.branchNames = ["a~g1/i0", "b~g1/i1", "n~f/i0", "q~g2/i0", "a~g2/i1", "b~g2/i2"] := by
+  decide +kernel
+
+/-- a description whose signal names contain `~` can be outside: the gate name `a~g/i0` IS the branch-fork name of pin `i0` of `g` -/
+example : closedNlB ⟨[(false, "a"), (true, "y")], [⟨"a~g/i0", "BUF", "g", ["a"]⟩, ⟨"y", "NOT", "h", ["a~g/i0"]⟩]⟩ = true ∧
+    closedBfNlB ⟨[(false, "a"), (true, "y")], [⟨"a~g/i0", "BUF", "g", ["a"]⟩, ⟨"y", "NOT", "h", ["a~g/i0"]⟩]⟩ = false ∧
+    verilogOKB { bf := true } primTL ["a", "y"]
+      (verilogOf ⟨[(false, "a"), (true, "y")], [⟨"a~g/i0", "BUF", "g", ["a"]⟩, ⟨"y", "NOT", "h", ["a~g/i0"]⟩]⟩) = false := by
+  decide +kernel
+
+/-! ### from TEXT: the two renderings as printed texts
+
+`KV.BenchText.printBench (benchOf nl)` and `KV.VerilogText.printVerilog [nlModule name nl]` (Proofs/FormatEquiv5.lean: the module of
+the text level whose statements `toRs` / `transform` turn into `verilogOf nl`) are the two TEXTS of the description; the model's
+reading of each text builds the circuit whose net the theorems above speak about. -/
+
+/-- **text → net, both formats**: for a description with writable names (`validStmt` / `validModule`: decidable) and no apostrophe in
+a signal name (`noAposB`), the circuit built from the model's reading of the printed bench text has the net `benchNet (benchOf nl)`, the
+one built from the printed Verilog module the net `verilogNet cfg primTL nl.portNames (verilogOf nl)` -/
+theorem bench_verilog_texts_to_nets (cfg : Cfg) (mname : String) (nl : Nl)
+    (hvb : (benchOf nl).all KV.BenchText.validStmt = true) (hvm : KV.VerilogText.validModule (nlModule mname nl) = true)
+    (hap : noAposB nl = true) :
+    (KV.BenchText.circOfText (KV.BenchText.printBench (benchOf nl))).map (fun C => C.toNet C.ioBench) =
+      some (benchNet (benchOf nl)) ∧
+    (KV.VerilogText.circOfText cfg primTL (KV.VerilogText.printVerilog [nlModule mname nl])).map (fun C => C.toNet C.ioVerilog) =
+      some (verilogNet cfg primTL nl.portNames (verilogOf nl)) := by
+  constructor
+  · rw [bench_text_to_netlist (benchOf nl) hvb]; rfl
+  · have := verilog_text_to_net cfg primTL (nlModule mname nl) (nlRs nl) hvm (toRs_nlModule mname nl hap) (hasPos_nlModule mname nl)
+      (ok_nlRs nl)
+    rw [transform_nlRs] at this
+    exact this
+
+/-- **`bench_verilog_text_sim_equiv`** — "the same netlist written in either format yields equivalent circuits", from the TEXTS: `nl` a
+closed description with fresh branch-fork names (`closedBfNlB`; any parser configuration `cfg`), `nB` / `nV` the nets of the circuits
+built from the model's reading of the printed bench text resp. the printed Verilog module, each with a schedule; two stimuli that
+agree on the constant slot and the interface positions: the 2-valued `LogicSim` results captured at the interface nodes (ports, state
+elements, in `s_nodes` order) are the same list -/
+theorem bench_verilog_text_sim_equiv (cfg : Cfg) (mname : String) (nl : Nl) (hcl : closedBfNlB nl = true)
+    (hvb : (benchOf nl).all KV.BenchText.validStmt = true) (hvm : KV.VerilogText.validModule (nlModule mname nl) = true)
+    (hap : noAposB nl = true) (nB nV : Net)
+    (hnB : (KV.BenchText.circOfText (KV.BenchText.printBench (benchOf nl))).map (fun C => C.toNet C.ioBench) = some nB)
+    (hnV : (KV.VerilogText.circOfText cfg primTL (KV.VerilogText.printVerilog [nlModule mname nl])).map
+      (fun C => C.toNet C.ioVerilog) = some nV)
+    (orderB orderV : List Nat)
+    (hoB : orderOKB nB orderB = true) (hfB : forksOKB nB orderB = true) (hlB : linesDrivenB Gen.kindPrefixes nB orderB = true)
+    (hoV : orderOKB nV orderV = true) (hfV : forksOKB nV orderV = true) (hlV : linesDrivenB Gen.kindPrefixes nV orderV = true)
+    (envB envV : Nat → Bool) (hz : envB nB.idx.zero = envV nV.idx.zero)
+    (hst : ∀ p, p < nl.nPos → envB (nB.idx.ppi + p) = envV (nV.idx.ppi + p)) :
+    (nB.sNodes.map fun n => (nB.node n).inPin 0 |>.map
+        (exec semL2n ((genOps Gen.kindPrefixes nB orderB false).map OpRow.toOp) envB)) =
+      (nV.sNodes.map fun n => (nV.node n).inPin 0 |>.map
+        (exec semL2n ((genOps Gen.kindPrefixes nV orderV false).map OpRow.toOp) envV)) := by
+  obtain ⟨h1, h2⟩ := bench_verilog_texts_to_nets cfg mname nl hvb hvm hap
+  rw [h1] at hnB
+  rw [h2] at hnV
+  cases hnB
+  cases hnV
+  have hc : closedNlB nl = true := by
+    rw [closedBfNlB, Bool.and_eq_true] at hcl; exact hcl.1
+  obtain ⟨hcm, hcc⟩ := closedNl_of nl hc
+  obtain ⟨_, _, _, _, _, _, hcap⟩ := bench_verilog_sim_equiv cfg nl hcm (benchOK_benchOf nl (commonNl_of nl hcm) hcc.kinds)
+    (renderings_build_branchforks cfg nl hcl) orderB orderV hoB hfB hlB hoV hfV hlV envB envV hz hst
+  exact hcap
+
+/-- the two texts of the example description; every text-level hypothesis holds -/
+example : KV.BenchText.printBench (benchOf exNl) = "INPUT(a)\nINPUT(y)\nINPUT(b)\nn = NAND(a, b)\nq = DFF(n)\ny = XOR(q, a, b)\n" ∧
+    KV.VerilogText.printVerilog [nlModule "top" exNl] =
+      "module top(a, y, b);\ninput a;\noutput y;\ninput b;\nNAND g1(.o(n), .i0(a), .i1(b));\nDFF f(.o(q), .i0(n));\nXOR g2(.o(y), .i0(q), .i1(a), .i2(b));\nendmodule\n" ∧
+    (benchOf exNl).all KV.BenchText.validStmt = true ∧ KV.VerilogText.validModule (nlModule "top" exNl) = true ∧
+    noAposB exNl = true := by decide +kernel
+
+end FormatEquiv
 
 end KV.C11
